@@ -72,7 +72,7 @@ pub fn wrong_type(op: u8) {
 
 /// right-typed key, failing arguments: 0 INCRBY overflow on i64::MAX, 1 INCRBY on a non-number,
 /// 2 LSET out of range, 3 SETRANGE beyond 512MB, 4 SET with invalid PX, 5 EXPIRE out of range,
-/// 6 HINCRBY on a non-numeric field
+/// 6 HINCRBY on a non-numeric field, 7 SET EX beyond the representable range on a list key, 8 same on a missing key
 pub fn bad_args(op: u8) {
     let mut ex = world();
     if op == 0 { ex.verif_data_mut().insert("s".to_string(), Value::String(SDS::from_str("9223372036854775807"))); }
@@ -85,11 +85,14 @@ pub fn bad_args(op: u8) {
         3 => { let off = vs::usize(); vs::assume(off > 512 * 1024 * 1024); ex.verif_setrange("s", off, &v) }
         4 => { let px = vs::i64(); vs::assume(px <= 0); ex.verif_set("l", &v, &None, &Some(px), &None, &None, &false, &false, &false, &false) }
         5 => { let s = vs::i64(); vs::assume(s > i64::MAX / 1000); ex.verif_expire("l", s, false, false, false, false) }
+        7 => { let sec = vs::i64(); vs::assume(sec > i64::MAX / 1000); ex.verif_set("l", &v, &Some(sec), &None, &None, &None, &false, &false, &false, &false) }
+        8 => { let sec = vs::i64(); vs::assume(sec > i64::MAX / 1000); ex.verif_set("nokey", &v, &Some(sec), &None, &None, &None, &false, &false, &false, &false) }
         _ => { let n = vs::i64(); ex.verif_data_mut().insert("h".to_string(), { let mut h = RedisHash::new(); h.set(sds1(b'f'), sds1(b'x')); Value::Hash(h) }); ex.verif_hincrby("h", &sds1(b'f'), n) }
     };
     let before = if op == 1 || op == 6 { [snap(&ex, "s"), before[1], snap(&ex, "h"), before[3]] } else { before };
     let after = [snap(&ex, "s"), snap(&ex, "l"), snap(&ex, "h"), snap(&ex, "t")];
     vcheck!(is_err(&r), "badargs:invalid arguments must reply with an error");
+    vcheck!(!ex.verif_data().contains_key("nokey"), "unchanged:a failing command created a key");
     vcheck!(before[0] == after[0] && before[1] == after[1] && before[2] == after[2] && before[3] == after[3], "unchanged:a failing command changed the keyspace or a TTL");
     std::mem::forget((r, ex, v));
 }
